@@ -1316,6 +1316,8 @@ def exhaust_child_main(argv):
     srv = cls(make_service(lambda *a: None), hostname="127.0.0.1", port=0, auto_register=False, logger=quiet_logger(),
               authenticator=two_byte_auth, **kw)
     t = srv._start_in_thread()
+    baseline = nfds()
+    reserve = [os.open("/dev/null", os.O_RDONLY) for _ in range(3)]     # so that this process can still look around later
     linger = struct.pack("ii", 1, 0)
     for i in range(n):
         try:
@@ -1330,7 +1332,20 @@ def exhaust_child_main(argv):
         except OSError:
             break
     wait_for(lambda: len(srv.clients) == 0, 3.0)
-    out = dict(limit=limit, resets=n, tracked=len(srv.clients), fds=nfds(), accept_alive=t.is_alive(),
+    for fd in reserve:
+        os.close(fd)
+    import gc
+
+    def leaked():
+        gc.collect()
+        try:
+            return nfds() - baseline
+        except OSError:
+            return 10 ** 6
+
+    # all of those clients are gone: the descriptors the server opened for them must be back (monotone: they only go down)
+    wait_for(lambda: leaked() <= 0, 3.0)
+    out = dict(limit=limit, resets=n, tracked=len(srv.clients), leaked=leaked(), accept_alive=t.is_alive(),
                listener_open=srv.listener.fileno() != -1)
     try:
         s = socket.create_connection(("127.0.0.1", srv.port), timeout=2)
